@@ -3,6 +3,7 @@ import Proofs.ForPrefixes
 import Proofs.LinkLists
 import Proofs.Windup
 import Proofs.WeLinks
+import Proofs.HeadlinesAll
 /-! C08 — per-webentity link queries, in full (Proofs/LinkInv, WeLinks): in every reachable state the answer of
     `get_webentity_pagelinks` for any switch combination is exactly the page links whose source page belongs to W
     and whose target passes the internal/outbound test, plus (inbound) those whose target belongs to W and
@@ -105,5 +106,33 @@ theorem C08_switches (cfg : Config) (dflt : Rule) (rules : List (Bytes × Rule))
       ∀ (incIn incInt incOut : Bool) (l : List PageLink), s.webentityPagelinks w ps incIn incInt incOut = .ok l →
         ∀ x, x ∈ l ↔ (incInt = true ∧ x ∈ lInt) ∨ (incOut = true ∧ x ∈ lOut) ∨ (incIn = true ∧ x ∈ lIn) :=
   Traph.C08_switches_reachable cfg dflt rules ops hrules hop hwf hok s hs w ps hf
+
+section EveryHistory
+open Traph State Pag Layout
+/-! ### every history (Proofs/Discipline, SinceClear, ReachableAll, HeadlinesAll) -/
+
+/-- EVERY HISTORY, `clear` and `reopen` included, no request assumed away: the only hypotheses are that byte strings cut into at least one stem (`OpWf`), rule anchors are whole LRUs (`rulesCanonical`, `Canon`) and the caller re-supplies on `reopen` the rules the index carries, as the API requires (`Disciplined`); `clear` acts as a reset (`sinceClear`).  -/
+theorem C08_all {s : State} (hs : Reachable s)
+    (w : Nat) (ps : List Bytes) (hf : FullPrefixList s w ps) :
+    (∀ incIn incInt incOut : Bool,
+      (incIn = false ∧ incInt = false ∧ incOut = false →
+        s.webentityPagelinks w ps incIn incInt incOut = .error .traph) ∧
+      ((incIn || incInt || incOut) = true →
+        ∃ l, s.webentityPagelinks w ps incIn incInt incOut = .ok l ∧
+          (∀ src tgt k, (src, tgt, k) ∈ l ↔
+            (OutLink s src tgt k ∧ s.retrieveWebentity src = .ok w ∧ SwitchOut s w incInt incOut tgt) ∨
+            (incIn = true ∧ InLink s src tgt k ∧ s.retrieveWebentity tgt = .ok w ∧
+              s.retrieveWebentity src ≠ .ok w)) ∧
+          ((ps.map lruIter).Nodup → (l.map wlEnds).Nodup))) ∧
+    (∀ src tgt k, OutLink s src tgt k → ∃ c, NodeOf s tgt c ∧ (s.cell c).flags.page = true) ∧
+    (∀ src tgt k, InLink s src tgt k → ∃ c, NodeOf s src c ∧ (s.cell c).flags.page = true) ∧
+    (∀ out : Bool, ∃ l, s.citedWebentities ps out = .ok l ∧ StrictAsc l ∧
+      ∀ x, x ∈ l ↔ ∃ own other k, s.retrieveWebentity own = .ok w ∧
+        ((out = true ∧ OutLink s own other k) ∨ (out = false ∧ InLink s other own k)) ∧ x = weOf s other) ∧
+    (∃ cited citing, s.citedWebentities ps true = .ok cited ∧ s.citedWebentities ps false = .ok citing ∧
+      s.webentityDegrees ps = .ok [citing.length, cited.length, citing.length + cited.length]) :=
+  Traph.C08_all hs w ps hf
+
+end EveryHistory
 
 end Traph.Props
